@@ -76,9 +76,9 @@ class Scheduler:
 
     def note_resolved(self, ref):
         self.resolved.add(ref.key)
-        if ref.attr == "refs":
+        if ref.idx is not None:
             for other in ref.owner.refs:
-                if other.attr == "refs" and other.idx < ref.idx and other.key not in self.resolved:
+                if other.attr == ref.attr and other.idx < ref.idx and other.key not in self.resolved:
                     self.order_at_risk += 1
                     break
 
@@ -176,7 +176,7 @@ def draw_schedule(t, refs, mode):
             deps = []
             for _ in range(nd):
                 # bias: a later element of the same list (order at risk)
-                sib = [x for x in r.owner.refs if x.attr == "refs" and r.attr == "refs" and x.idx > r.idx]
+                sib = [x for x in r.owner.refs if r.idx is not None and x.attr == r.attr and x.idx > r.idx]
                 if sib and t.chance(1, 2, "dep-sibling"):
                     d = t.pick(sib, "dep-sib")
                     di = refs.index(d)
@@ -229,6 +229,10 @@ def run(ctx):
     sigs = []
     samples = []
     nontrivial = False
+    if t.chance(1, 5, "template-R2"):
+        # natural postponement: an RREL reference that navigates through other references
+        run_r2(ctx, t, prop, tools, memo)
+        return
     for rep in range(nloads):
         ctx.nontrivial = False
         if rep > 0 and same_world:
@@ -400,6 +404,204 @@ def episode(ctx, t, prop, family, tools, memo, mm, rep):
     if prop == "C34" or tools:
         check_tools(ctx, w, models, closure, family, sched)
     return True
+
+
+R2_GRAMMAR = """
+Model: classes+=Class calls*=Call;
+Class: 'class' name=ID ('extends' bases+=[Class][','])? '{' methods*=Method '}';
+Method: 'm' name=ID;
+Call: 'call' name=ID ':' cls=[Class] '.' meth=[Method|ID|.~cls.(~bases)*.methods];
+"""
+
+
+def run_r2(ctx, t, prop, tools, memo):
+    """Template R2.  `bases` and `cls` references are answered by the scripted provider under a drawn schedule;
+    `meth` uses the RREL expression of the grammar, which postpones by itself while the references it navigates
+    through (`cls`, and every `bases` list on the way) are unresolved.  Only schedules under which everything is
+    resolvable are drawn; method names are unique within every inheritance closure, so the expected target does not
+    depend on the order in which RREL expands `(~bases)*`."""
+    from ..gen import Ent, Ref
+
+    path = "/sim/w1/r2.m"
+    ncls = 2 + t.draw(5, "r2-nclasses")
+    classes = []
+    for i in range(ncls):
+        c = Ent("class", f"C{i}", path, None)
+        c.bases = []
+        c.methods = []
+        # acyclic inheritance: bases among the classes declared so far - or later in the text (forward reference)
+        classes.append(c)
+    order = t.perm(ncls, "r2-rank")  # rank[i] < rank[j] => i may be a base of j
+    rank = {c: order[i] for i, c in enumerate(classes)}
+    mcount = [0]
+    for c in classes:
+        cands = [d for d in classes if rank[d] < rank[c]]
+        nb = t.draw(min(3, len(cands)) + 1, "r2-nbases")
+        pick = t.perm(len(cands), "r2-bases")[:nb]
+        c.bases = [cands[k] for k in pick]
+
+    def closure(c, seen=None):
+        seen = seen if seen is not None else []
+        if c not in seen:
+            seen.append(c)
+            for b in c.bases:
+                closure(b, seen)
+        return seen
+
+    def descendants(c):
+        return [d for d in classes if c in closure(d)]
+
+    for c in classes:
+        for _ in range(t.draw(3, "r2-nmethods")):
+            # a fresh name: unique everywhere, hence unique in every closure
+            m = Ent("method", f"m{mcount[0]}", path, c)
+            mcount[0] += 1
+            c.methods.append(m)
+    calls = []
+    for k in range(1 + t.draw(4, "r2-ncalls")):
+        c = t.pick(classes, "r2-call-class")
+        ms = [m for d in closure(c) for m in d.methods]
+        if not ms:
+            continue
+        call = Ent("call", f"k{k}", path, None)
+        call.cls = c
+        call.meth = t.pick(ms, "r2-call-method")
+        calls.append(call)
+    # ---- text (calls may come before the classes: forward references everywhere)
+    out = []
+    pos = [0]
+    seps = [t.pick([" ", "\n", "  "], "r2-sep") for _ in range(3)]
+    ntok = [0]
+
+    def T(s_):
+        a = pos[0]
+        sep = seps[ntok[0] % 3]
+        ntok[0] += 1
+        out.append(s_ + sep)
+        pos[0] += len(s_) + len(sep)
+        return a
+
+    refs = []
+    decl = t.perm(ncls, "r2-text-order")
+    for i in decl:
+        c = classes[i]
+        c.start = T("class")
+        T(c.name)
+        if c.bases:
+            T("extends")
+            for j, b in enumerate(c.bases):
+                if j:
+                    T(",")
+                r = Ref(c, "bases", j, b)
+                r.text = r.name = b.name
+                r.pos = T(b.name)
+                c.refs.append(r)
+                refs.append(r)
+        T("{")
+        for m in c.methods:
+            m.start = T("m")
+            T(m.name)
+        T("}")
+    mrefs = []
+    for call in calls:
+        T("call")
+        T(call.name)
+        T(":")
+        r = Ref(call, "cls", None, call.cls)
+        r.text = r.name = call.cls.name
+        r.pos = T(call.cls.name)
+        call.refs.append(r)
+        refs.append(r)
+        T(".")
+        r2 = Ref(call, "meth", None, call.meth)
+        r2.text = r2.name = call.meth.name
+        r2.pos = T(call.meth.name)
+        mrefs.append(r2)
+    text = "".join(out)
+    for r in refs + mrefs:
+        r.key = r.sid()
+    SIMFS.files[path] = text
+
+    class W:
+        pass
+
+    w = W()
+    w.main = path
+    w.refs = refs
+    mode = t.pick(["dag", "rounds", "dag", "eager"], "mode")
+    draw_schedule(t, refs, mode)
+    budget = len(refs) + len(mrefs) + 2
+    sched = Scheduler(ctx, w, budget)
+    ctx.sample = {"template": "R2", "mode": mode, "text": text,
+                  "plans": {r.key: r.plan for r in refs if r.plan != ("now",)}}
+
+    def build(scheduler):
+        mm = metamodel_from_str(R2_GRAMMAR, textx_tools_support=tools, memoization=memo)
+        prov = ScriptedProvider(sp.PlainName(), scheduler, ctx)
+        mm.register_scope_providers({"Class.bases": prov, "Call.cls": prov})
+        return mm
+
+    mm = build(sched)
+    ctx.ev("world-r2", mode, len(refs), len(mrefs))
+    try:
+        model = mm.model_from_file(path)
+    except Budget as b:
+        ctx.violate("C09", "non-termination", "r2", f"provider for {b.args[0]} called more than {budget} times")
+        return
+    except Exception as e:
+        ctx.violate("C09", "verdict", f"r2/{mode}/spurious-failure",
+                    f"every reference is resolvable under this schedule but the load failed: {e!r}")
+        return
+    ctx.stats["steps"] += sum(sched.calls.values())
+    ctx.probe("natural-postponement-template")
+    if sched.order_at_risk:
+        ctx.probe("list-element-postponed-while-later-resolved")
+    ctx.sig = ["r2", mode, sched.trace, text]
+    cobj = {c.name: o for c, o in zip([classes[i] for i in decl], model.classes)}
+    for c in classes:
+        o = cobj[c.name]
+        got = list(o.bases)
+        exp = [cobj[b.name] for b in c.bases]
+        if sorted(map(id, got)) != sorted(map(id, exp)):
+            ctx.violate("C09", "result-independent-of-order", "r2/list-content",
+                        f"{c.name}.bases = {[getattr(x, 'name', x) for x in got]}, expected {[b.name for b in c.bases]}")
+        elif [id(x) for x in got] != [id(x) for x in exp]:
+            ctx.violate("C08", "order", f"r2/{mode}", f"{c.name}.bases = {[x.name for x in got]}, textual order is "
+                                                      f"{[b.name for b in c.bases]}")
+            ctx.violate("C09", "result-independent-of-order", "r2/list-order",
+                        f"{c.name}.bases = {[x.name for x in got]} under this schedule")
+    for call, co in zip(calls, model.calls):
+        if co.cls is not cobj[call.cls.name]:
+            ctx.violate("C09", "result-independent-of-order", "r2/scalar", f"{call.name}.cls = {co.cls!r}")
+        owner = cobj[call.meth.parent.name]
+        want = next(m for m in owner.methods if m.name == call.meth.name)
+        if co.meth is not want:
+            ctx.violate("C09", "result-independent-of-order", "r2/rrel-through-references",
+                        f"{call.name}: {call.cls.name}.{call.meth.name} resolved to the method of "
+                        f"{getattr(getattr(co.meth, 'parent', None), 'name', None)}, it is defined in {owner.name}")
+    if prop == "C09":
+        ctx.nontrivial = sched.postponements > 0
+    elif prop == "C08":
+        ctx.nontrivial = sched.order_at_risk > 0
+    if tools:
+        lst = getattr(model, "_pos_crossref_list", None) or []
+        starts = [e.ref_pos_start for e in lst]
+        allr = refs + mrefs
+        if sorted(starts) != sorted(r.pos for r in allr):
+            ctx.violate("C34", "crossref-bijection", "r2", f"entries at {sorted(starts)}, references at {sorted(r.pos for r in allr)}")
+        else:
+            if starts != sorted(starts):
+                ctx.violate("C34", "crossref-sorted", "r2", f"ref_pos_start sequence {starts} is not sorted")
+            bp = {r.pos: r for r in allr}
+            for e in lst:
+                r = bp[e.ref_pos_start]
+                if text[e.ref_pos_start:e.ref_pos_end] != r.text:
+                    ctx.violate("C34", "ref-span", "r2", f"{r.key}: [{e.ref_pos_start}:{e.ref_pos_end}] = "
+                                                         f"{text[e.ref_pos_start:e.ref_pos_end]!r}, reference text is {r.text!r}")
+                if e.def_file_name != path or e.def_pos_start != r.target.start:
+                    ctx.violate("C34", "def-span", "r2", f"{r.key}: definition at {e.def_pos_start}, target starts at {r.target.start}")
+        if prop == "C34":
+            ctx.nontrivial = sched.postponements > 0
 
 
 def check_tools(ctx, w, models, closure, family, sched):
